@@ -117,11 +117,16 @@ class World:
             if real is not None:
                 setattr(mod, name, self._wrap_compile(real, name))
         self._apply_knobs()
+        # Python's *default* warning behaviour (each warning shown once per location, remembered in
+        # the location's __warningregistry__): that registry is process-global state a user's
+        # process really has, so it stays in the simulation.  Every solve op is issued from its own
+        # call site (see executor._call_from_fresh_site), like distinct lines of a user's program.
         warnings.resetwarnings()
-        warnings.simplefilter("always")
+        for cat in (DeprecationWarning, PendingDeprecationWarning, ImportWarning, ResourceWarning):
+            warnings.simplefilter("ignore", cat)
 
         def recorder(message, category, filename, lineno, file=None, line=None):
-            self.warnings.append((category.__name__, str(message)))
+            self.warnings.append((category.__name__, str(message), _origin(filename)))
 
         self.recorder = recorder
         warnings.showwarning = recorder
@@ -189,7 +194,7 @@ class World:
         """The application installs another warnings.showwarning between two solves."""
 
         def recorder2(message, category, filename, lineno, file=None, line=None):
-            self.warnings.append((category.__name__, str(message)))
+            self.warnings.append((category.__name__, str(message), _origin(filename)))
 
         self.recorder = recorder2
         warnings.showwarning = recorder2
@@ -585,6 +590,16 @@ class _Clock:
 
     def monotonic(self):
         return self._w.clock
+
+
+def _origin(filename):
+    """Where a warning is attributed to: the user's call site, optyx itself, or elsewhere (SciPy)."""
+    f = str(filename)
+    if f.startswith("<user-op"):
+        return "user"
+    if "/optyx/" in f:
+        return "optyx"
+    return "other"
 
 
 def scrub(s):
